@@ -184,10 +184,17 @@ func c05Edge(c *core.Ctx, idx int) {
 		for i := 0; i < n; i++ {
 			others = append(others, core.Pick(r, ids[otherStore(store)]))
 		}
+		blankOther := false
+		if (kind == "setlinks" || kind == "addlinks") && r.P(0.15) {
+			// a blank id among the requested ones: it names no entity
+			others = append(others, "")
+			blankOther = true
+		}
 		// counts that are no counts (negative, beyond int32) may be refused or read as a removal, but never stored
-		count := core.Pick(r, []int{0, 1, 2, 3, 1, 2, -1, -3, 1 << 31, 1 << 32, 1<<32 + 2, 1<<31 - 1, 1<<31 - 1}) // the largest count: an increment follows sooner or later
+		count := core.Pick(r, []int{0, 1, 2, 3, 1, 2, -1, -3, 1 << 31, 1 << 32, 1<<32 + 2, 1<<31 - 1, 1<<31 - 1, 256, 257, 513, 65537}) // the largest count: an increment follows sooner or later
 		var before *dump.Dump
-		_ = e.Db.View(func(tx *bbolt.Tx) error { before = dump.Tx(tx); return nil })
+		var prevLinks *edgeLinks
+		_ = e.Db.View(func(tx *bbolt.Tx) error { before = dump.Tx(tx); prevLinks = readEdgeLinks(tx, sc); return nil })
 		st := sc.St(store)
 		lc, rc := st.Links[map[string]string{kmodel.Emps: "watching", kmodel.Depts: "watchers"}[store]], st.RcLinks[map[string]string{kmodel.Emps: "credits", kmodel.Depts: "creditors"}[store]]
 		opErr := e.Db.Update(nil, func(ctx boltz.MutateContext) error {
@@ -250,6 +257,9 @@ func c05Edge(c *core.Ctx, idx int) {
 		var after *dump.Dump
 		var links *edgeLinks
 		_ = e.Db.View(func(tx *bbolt.Tx) error { after = dump.Tx(tx); links = readEdgeLinks(tx, sc); return nil })
+		if opErr == nil && blankOther && links.plain[store+"\x00"+src] != nil {
+			c.Violationf("C05 edge ids: "+kind+" with a blank id among the requested ones (it names no entity) reported success", info, "requested %q", others)
+		}
 		if opErr != nil {
 			if after.Hash() != before.Hash() {
 				c.Violationf("C05 edge ids: an operation that returned an error changed the database: "+cell, info, "diff: %v", dump.Diff(before, after, nil, 4))
@@ -281,6 +291,17 @@ func c05Edge(c *core.Ctx, idx int) {
 					}
 					if !sameStrSet(got, want) {
 						c.Violationf("C05 edge ids: SetLinks reported success but left a different set: "+cell, info, "%d links, %d requested", len(got), len(want))
+					}
+				}
+			case "rcinc", "rcdec":
+				// one step up or down from what was there (a count of 257 goes to 256, not away)
+				if prev, had := prevLinks.rc[store+"\x00"+src][others[0]]; exists && had && prev > 1 && prev < 2147483647 {
+					want := prev + 1
+					if kind == "rcdec" {
+						want = prev - 1
+					}
+					if mineRc[others[0]] != want {
+						c.Violationf("C05 edge ids: "+kind+" reported success but the count is not one step from the previous one: "+cell, info, "count was %d, is %d", prev, mineRc[others[0]])
 					}
 				}
 			case "rcset":
